@@ -428,7 +428,12 @@ func ruleReadLimitsConstant(w *World, r *Run, rule string) {
 						good = false
 					}
 				}
-				r.Check(good, rule, funcNameOrSSA(outermost(fn))+" | read limit is a positive constant", w.pos(in.Pos()), name+" is given a limit that is not a positive constant: a value such as Content-Length is -1 for chunked responses and silently turns every body into an empty one")
+				// or configuration: a value computed from constants, parameters of plain type and fields of the receiver or of
+				// configuration structures — nothing a peer sends (no call result, no field of a response or request)
+				if !good && configValue(fn, arg, 0) {
+					good = true
+				}
+				r.Check(good, rule, funcNameOrSSA(outermost(fn))+" | read limit is a positive constant", w.pos(in.Pos()), name+" is given a limit that is neither a positive constant nor configuration: a value such as Content-Length is -1 for chunked responses and silently turns every body into an empty one")
 			}
 		}
 	}
@@ -755,4 +760,42 @@ func ruleFeederAs(w *World, r *Run, rule string) {
 	if n == 0 {
 		r.Undecided(rule, fnFeedOnce, "", "the feeder's anchoring rule produced no verdict")
 	}
+}
+
+
+// configValue: the SSA value is computed from constants, package variables, parameters that are not network objects, and
+// fields reached from those — never from the result of a call.
+func configValue(fn *ssa.Function, v ssa.Value, depth int) bool {
+	if depth > 8 {
+		return false
+	}
+	switch x := v.(type) {
+	case *ssa.Const, *ssa.Global:
+		return true
+	case *ssa.Parameter:
+		ts := typeStr(x.Type())
+		return !strings.Contains(ts, "http.Request") && !strings.Contains(ts, "http.Response") && !strings.Contains(ts, "io.Read")
+	case *ssa.FreeVar:
+		return true
+	case *ssa.Convert:
+		return configValue(fn, x.X, depth+1)
+	case *ssa.ChangeType:
+		return configValue(fn, x.X, depth+1)
+	case *ssa.UnOp:
+		return configValue(fn, x.X, depth+1)
+	case *ssa.FieldAddr:
+		return configValue(fn, x.X, depth+1)
+	case *ssa.Field:
+		return configValue(fn, x.X, depth+1)
+	case *ssa.BinOp:
+		return configValue(fn, x.X, depth+1) && configValue(fn, x.Y, depth+1)
+	case *ssa.Phi:
+		for _, e := range x.Edges {
+			if e != v && !configValue(fn, e, depth+1) {
+				return false
+			}
+		}
+		return true
+	}
+	return false
 }
